@@ -335,7 +335,8 @@ where
         }
 
         let remaining_size = buffer_size + entries.iter().map(|e| e.size()).sum::<usize>();
-        let remaining_length = VariableByteInteger::from_u32(remaining_size as u32).unwrap();
+        let remaining_length = VariableByteInteger::from_len(remaining_size)
+            .map_err(|_| MqttError::MalformedPacket)?;
 
         let subscribe = GenericSubscribe {
             fixed_header: [FixedHeader::Subscribe as u8],
